@@ -42,6 +42,20 @@ type IdentRes struct {
 	ProbeOk   bool     `json:"probeOk"`
 	CtlOk     bool     `json:"ctlOk"`
 	Listed    bool     `json:"listed"` // after a successful pause the paused-cross-chains query lists exactly this string
+	// the same string inside a batch, followed by / surrounded by fresh valid identifiers
+	BatchFirstOk bool `json:"batchFirstOk"`
+	BatchMidOk   bool `json:"batchMidOk"`
+}
+
+// freshCps are two valid identifiers of the protocol that no grid string equals.
+func freshCps(pid string) (string, string) {
+	switch pid {
+	case "IBC":
+		return "channel-4000000", "channel-4000001"
+	case "INT":
+		return "fresh-a", "fresh-b"
+	}
+	return "4000000", "4000001"
 }
 
 func (r *Runner) doIdent(bctx sdk.Context, ln *Line) {
@@ -96,6 +110,15 @@ func (r *Runner) doIdent(bctx sdk.Context, ln *Line) {
 			ures, _ := r.msgOn(c, &forwardertypes.MsgUnpauseCrossChains{Signer: w.acct["AUTH"].String(), ProtocolId: pname, CounterpartyIds: []string{e.Cp}})
 			res.UnpauseOk = ures.Ack == "ok"
 		}
+
+		// the batch entry points: the spelling in the first / a middle position of a batch
+		fa, fb := freshCps(in.Pid)
+		cb, _ := bctx.CacheContext()
+		bres, _ := r.msgOn(cb, &forwardertypes.MsgPauseCrossChains{Signer: w.acct["AUTH"].String(), ProtocolId: pname, CounterpartyIds: []string{e.Cp, fa}})
+		res.BatchFirstOk = bres.Ack == "ok"
+		cb, _ = bctx.CacheContext()
+		bres, _ = r.msgOn(cb, &forwardertypes.MsgPauseCrossChains{Signer: w.acct["AUTH"].String(), ProtocolId: pname, CounterpartyIds: []string{fa, e.Cp, fb}})
+		res.BatchMidOk = bres.Ack == "ok"
 
 		// query entry points
 		var ic forwardertypes.QueryIsCrossChainPausedResponse
